@@ -44,13 +44,14 @@ def _alarm(*_):
 
 @contextlib.contextmanager
 def _limit(seconds):
-    old = signal.signal(signal.SIGALRM, _alarm)
-    signal.alarm(seconds)
+    """Limit the CPU time (not the wall time: the machine is shared) of one implementation call."""
+    old = signal.signal(signal.SIGPROF, _alarm)
+    signal.setitimer(signal.ITIMER_PROF, seconds)
     try:
         yield
     finally:
-        signal.alarm(0)
-        signal.signal(signal.SIGALRM, old)
+        signal.setitimer(signal.ITIMER_PROF, 0)
+        signal.signal(signal.SIGPROF, old)
 
 
 # ----------------------------------------------------------------------------- AST <-> sympy
@@ -487,11 +488,11 @@ def run(ck: Check):
 
     # ---- (1) generated formulas
     plan = [("MC_SignVerdict_small%s.cfg" % ("" if thorough else "_q"), None, None)]
-    for i in range(3 if thorough else 1):
+    for i in range(2 if thorough else 1):
         s = ck.seed * 100 + i
-        plan += [("MC_SignVerdict_rand1.cfg", s, 300 if thorough else 100),
-                 ("MC_SignVerdict_rand2.cfg", s, 700 if thorough else 220),
-                 ("MC_SignVerdict_rand3.cfg", s, 300 if thorough else 80)]
+        plan += [("MC_SignVerdict_rand1.cfg", s, 150 if thorough else 100),
+                 ("MC_SignVerdict_rand2.cfg", s, 350 if thorough else 220),
+                 ("MC_SignVerdict_rand3.cfg", s, 120 if thorough else 80)]
     b_fail = []
     for cfg, seed, depth in plan:
         t0 = time.time()
@@ -562,7 +563,7 @@ def run(ck: Check):
     ck.extra["c09_stats"] = stats
     ck.extra["non_decisive"] = ("finite-difference monotonicity of the differentiated formula (counted); calls with "
                                 "terms_do_not_cross_zero=True whose precondition TLC could not establish; formulas "
-                                "with heads outside the AST (skipped, counted by head); sympy calls over %d s "
+                                "with heads outside the AST (skipped, counted by head); sympy calls over %d CPU-seconds "
                                 "(call_timeouts)" % CALL_TIMEOUT)
     total_calls = max(1, ck.evaluations)
     if stats["call_timeouts"] > 0.35 * total_calls:
